@@ -29,21 +29,35 @@ Opts(s1, s2) == { [write_data |-> wd, write_axes |-> wa, include |-> [given |-> 
                       wd \in BOOLEAN, wa \in BOOLEAN, ig \in BOOLEAN, eg \in BOOLEAN,
                       ii \in Items(s1, s2), ei \in Items(s1, s2), ax \in {DefaultAxes, CustomAxes} }
 
-VARIABLES s1v, s2v, optv, framev
-msvars == <<s1v, s2v, optv, framev>>
+VARIABLES s1v, s2v, optv, framev, aggv, rollv
+msvars == <<s1v, s2v, optv, framev, aggv, rollv>>
+RollOf(s1, s2, aggd) == LET w == RollupWanted(Tb(s1, s2), Cfg(s1, s2), CharsOf, aggd) IN [found |-> w # <<>>, vals |-> w]
 MCSInit == \E s1 \in StreamIds, s2 \in StreamIds :
                /\ s1 # s2
                /\ \E o \in Opts(s1, s2) :
                      /\ (o.include.given \/ o.include.items = <<>>) /\ (o.exclude.given \/ o.exclude.items = <<>>)
                      /\ s1v = s1 /\ s2v = s2 /\ optv = o
                      /\ framev = SpecFrame(Tb(s1, s2), Cfg(s1, s2), CharsOf, o)
-MCSNext == UNCHANGED msvars
+                     /\ aggv = FALSE /\ rollv = RollOf(s1, s2, FALSE)
+MCSStutter == UNCHANGED msvars
+\* the life cycle of the store object: compute_aggregate, and saving again (with the same options)
+MCAggregate == /\ aggv' = TRUE /\ rollv' = RollOf(s1v, s2v, TRUE)
+               /\ UNCHANGED <<s1v, s2v, optv, framev>>
+MCSaveAgain == /\ framev' = SpecFrame(Tb(s1v, s2v), Cfg(s1v, s2v), CharsOf, optv)
+               /\ rollv' = RollOf(s1v, s2v, aggv)
+               /\ UNCHANGED <<s1v, s2v, optv, aggv>>
+MCSNext == MCAggregate \/ MCSaveAgain
 
 Collide(s1, s2) == {s1, s2} = {"ab", "a_b"}
 InvStoreSat ==
     LET ok == FrameOK(framev, Tb(s1v, s2v), Cfg(s1v, s2v), CharsOf, optv) IN
     /\ ok.rows /\ ok.axes /\ ok.data
     /\ ~Collide(s1v, s2v) => ok.distinct /\ ok.count /\ ok.results
+InvLife == /\ RollupOK(rollv, Tb(s1v, s2v), Cfg(s1v, s2v), CharsOf, aggv)
+           /\ AggIdempotent(Tb(s1v, s2v), Cfg(s1v, s2v), CharsOf)
+           /\ (aggv => rollv.found)
+\* saving is a pure observation: it never changes the frame the same options give
+SaveIsPure == [][framev' = framev]_msvars
 InvNames ==
     \A j \in 1..Len(framev) :
         framev[j].name \notin ({CharsOf[s1v], CharsOf[s2v]} \cup AxisNamesOf(optv)) => IsSafe(framev[j].name)
